@@ -84,6 +84,14 @@ class ClassDispatcher(Generic[K_co, V]):
             except KeyError:
                 pass
 
+        # virtual subclass (class registered at ABC) has no parent at its MRO
+        for parent, value in self._mapping.items():
+            try:
+                if issubclass(key, parent):
+                    return value
+            except TypeError:
+                pass
+
         raise KeyError(key)
 
     def values(self) -> Collection[V]:
